@@ -1,3 +1,5 @@
+import BalmProofs.SizeBound
+import BalmProofs.SymLoopSpec
 import Balm
 import BalmProofs.AttrTest
 import BalmProofs.Bfs
